@@ -11,6 +11,9 @@ Proof.
   injection He as -> He. injection Hl as Hl. destruct (IH a' Hl He) as [-> ->]. auto.
 Qed.
 
+Lemma named_false_ne2 k : named k = false -> k <> 2.
+Proof. intros H ->. discriminate. Qed.
+
 Section Img.
   Context {T : Type} (OP : ops T).
   Variable D : Type.
@@ -62,8 +65,8 @@ Section Img.
   Qed.
 
   (* swaths (numpy / xarray over numpy): the image is the flat lon bytes followed by the flat lat bytes *)
-  Lemma swath_image_np (s : swath T) : s_kind s <> 2 -> swath_image s = map TNum (concat (s_lon s)) ++ map TNum (concat (s_lat s)).
-  Proof. intros Hk. unfold swath_image. destruct (Z.eqb_spec (s_kind s) 2); [contradiction | reflexivity]. Qed.
+  Lemma swath_image_np (s : swath T) : named (s_kind s) = false -> swath_image s = map TNum (concat (s_lon s)) ++ map TNum (concat (s_lat s)).
+  Proof. intros Hk. unfold swath_image. rewrite Hk. reflexivity. Qed.
 
   Lemma map_TNum_inj (l1 l2 : list T) : map (@TNum T) l1 = map TNum l2 -> l1 = l2.
   Proof.
@@ -72,7 +75,7 @@ Section Img.
   Qed.
 
   Lemma swath_image_eq_np (a b : swath T) :
-    s_kind a <> 2 -> s_kind b <> 2 -> length (concat (s_lon a)) = length (concat (s_lon b)) ->
+    named (s_kind a) = false -> named (s_kind b) = false -> length (concat (s_lon a)) = length (concat (s_lon b)) ->
     (swath_image a = swath_image b <->
      concat (s_lon a) = concat (s_lon b) /\ concat (s_lat a) = concat (s_lat b)).
   Proof.
@@ -84,12 +87,12 @@ Section Img.
 
   (* the container (list / numpy / xarray over numpy) is not part of the image *)
   Lemma swath_image_container k1 k2 nd1 nd2 (lon lat : list (list T)) n1 n2 n3 n4 :
-    k1 <> 2 -> k2 <> 2 ->
+    named k1 = false -> named k2 = false ->
     swath_image (mk_swath k1 nd1 lon lat n1 n2) = swath_image (mk_swath k2 nd2 lon lat n3 n4).
   Proof. intros. rewrite !swath_image_np by assumption. reflexivity. Qed.
 
   Lemma swath_distinct_np (a b : swath T) :
-    s_kind a <> 2 -> s_kind b <> 2 -> length (concat (s_lon a)) = length (concat (s_lon b)) ->
+    named (s_kind a) = false -> named (s_kind b) = false -> length (concat (s_lon a)) = length (concat (s_lon b)) ->
     concat (s_lon a) <> concat (s_lon b) \/ concat (s_lat a) <> concat (s_lat b) ->
     H (swath_image a) <> H (swath_image b).
   Proof.
@@ -98,7 +101,7 @@ Section Img.
 
   (* the image of a numpy swath does NOT contain its shape *)
   Lemma swath_image_ignores_shape (a b : swath T) :
-    s_kind a <> 2 -> s_kind b <> 2 -> concat (s_lon a) = concat (s_lon b) -> concat (s_lat a) = concat (s_lat b) ->
+    named (s_kind a) = false -> named (s_kind b) = false -> concat (s_lon a) = concat (s_lon b) -> concat (s_lat a) = concat (s_lat b) ->
     swath_image a = swath_image b.
   Proof. intros Ha Hb E1 E2. rewrite !swath_image_np by assumption. rewrite E1, E2. reflexivity. Qed.
 
